@@ -89,6 +89,8 @@ mut('C12', 'transform-writes-through', 'rsatoolbox/rdm/transform.py', "    dissi
 mut('C12', 'subset-reuses-parent-dict', R, "        descriptors = deepcopy(self.descriptors)\n        pattern_descriptors = deepcopy(self.pattern_descriptors)\n        rdm_descriptors = extract_dict(self.rdm_descriptors, selection)\n        dissimilarity_measure = self.dissimilarity_measure\n        rdms = RDMs(dissimilarities=dissimilarities,\n                    descriptors=descriptors,\n                    rdm_descriptors=rdm_descriptors,\n                    pattern_descriptors=pattern_descriptors,\n                    dissimilarity_measure=dissimilarity_measure)\n        return rdms\n\n    def subsample(",
     "        descriptors = deepcopy(self.descriptors)\n        pattern_descriptors = self.pattern_descriptors\n        rdm_descriptors = extract_dict(self.rdm_descriptors, selection)\n        dissimilarity_measure = self.dissimilarity_measure\n        rdms = RDMs(dissimilarities=dissimilarities,\n                    descriptors=descriptors,\n                    rdm_descriptors=rdm_descriptors,\n                    pattern_descriptors=pattern_descriptors,\n                    dissimilarity_measure=dissimilarity_measure)\n        return rdms\n\n    def subsample(")
 mut('C12', 'cov-unbalanced-no-copy', 'rsatoolbox/data/noise.py', "        matrix = dataset.measurements.copy()", "        matrix = dataset.measurements")
+mut('C12', 'sort_by-keeps-callers-list', R, "                self.reorder([list(descriptor).index(x) for x in new_order])", "                self.reorder([list(descriptor).index(x) for x in new_order])\n                if len(new_order) == self.n_cond:\n                    self.pattern_descriptors[dname] = new_order")
+mut('C12', 'num_index-sorts-callers-list', 'rsatoolbox/util/descriptor_utils.py', "    return np.where(bool_index(descriptor, value))[0]", "    if isinstance(value, list):\n        value.sort()\n    return np.where(bool_index(descriptor, value))[0]")
 mut('C12', 'copy-shares-array', R, "            dissimilarities=self.dissimilarities.copy(),", "            dissimilarities=self.dissimilarities,")
 # ---- C16
 mut('C16', 'unicode-branch-removed', H5, "            if dictionary[key].dtype.type is np.bytes_:\n                dictionary[key] = np.char.decode(dictionary[key], 'utf-8')", "            if False:\n                pass")
